@@ -170,3 +170,77 @@ def install_parse_name_contract():
     err = lambda name, result: PostBroken(LAST.get("parse_name_post"))  # noqa: E731
     N.parse_single_name_into_parts = icontract.ensure(_parse_name_post, error=err)(N.parse_single_name_into_parts)
     _INSTALLED.add("parse_name")
+
+
+# ------------------------------------------------------------------ no mutation / no aliasing (C07)
+def _snap_lib(self, library):
+    from .fingerprint import fp
+    # keep the input alive (ids cannot be recycled) together with its fingerprint
+    return (library, fp(library))
+
+
+def _no_mutation_post(self, library, result, OLD):
+    from .fingerprint import fp, mutable_ids
+    name = type(self).__name__
+    must_copy = (not self.allow_inplace_modification) or name == "SortBlocksByTypeAndKeyMiddleware"
+    if not must_copy:
+        COUNT["transform_inplace:" + name] += 1
+        return True
+    COUNT["transform_copy:" + name] += 1
+    lib, before = OLD.snap
+    why = None
+    if fp(lib) != before:
+        why = f"{name}: input library changed by a copy-mode transform"
+    else:
+        a, b = mutable_ids(lib), mutable_ids(result)
+        shared = set(a) & set(b)
+        if shared:
+            kinds = sorted({a[i] for i in shared})
+            why = f"{name}: result shares mutable objects with the input: {'+'.join(kinds)[:60]}"
+    LAST["no_mutation_post"] = why
+    return why is None
+
+
+def install_no_mutation_contract():
+    """Wraps `transform` of every class in the shipped middleware package that defines one."""
+    if "nomut" in _INSTALLED:
+        return []
+    import bibtexparser.middlewares  # noqa
+    from bibtexparser.middlewares.middleware import Middleware
+    err = lambda self, library, result: PostBroken(LAST.get("no_mutation_post"))  # noqa: E731
+    wrapped = []
+    seen = set()
+    stack = [Middleware]
+    while stack:
+        cls = stack.pop()
+        if cls in seen:
+            continue
+        seen.add(cls)
+        stack.extend(cls.__subclasses__())
+        fn = cls.__dict__.get("transform")
+        if fn is None or getattr(fn, "__isabstractmethod__", False) or not cls.__module__.startswith("bibtexparser"):
+            continue
+        w = icontract.snapshot(_snap_lib, name="snap")(icontract.ensure(_no_mutation_post, error=err)(fn))
+        setattr(cls, "transform", w)
+        wrapped.append(cls.__name__)
+    _INSTALLED.add("nomut")
+    return wrapped
+
+
+def shipped_middleware_classes():
+    import inspect
+    import bibtexparser.middlewares as mws
+    from bibtexparser.middlewares.middleware import Middleware
+    out = {}
+    stack = [Middleware]
+    seen = set()
+    while stack:
+        cls = stack.pop()
+        if cls in seen:
+            continue
+        seen.add(cls)
+        stack.extend(cls.__subclasses__())
+        if cls.__module__.startswith("bibtexparser") and not inspect.isabstract(cls) and not cls.__name__.startswith("_") \
+                and cls.__name__ not in ("BlockMiddleware", "LibraryMiddleware", "Middleware"):
+            out[cls.__name__] = cls
+    return out
